@@ -255,9 +255,14 @@ def verify_unit(reg, idx: SourceIndex, c: Contract, timeout_ms=None, seed=0, dis
         res.assumptions = sorted(ctx.assumptions)
         return res
     except Exception as e:
-        res.status = "error"
-        res.reason = "engine exception: " + "".join(traceback.format_exception(e))[-1500:]
+        # an internal exception while translating CHANGED code is an engine limitation, not a
+        # verdict and not a reason to stop the whole check: the unit is undecided (its bounded
+        # stand-in runs).  On the unchanged tree every unit translates, and a unit that stops
+        # doing so shows as level 'other' against the claimed 'proof'.
+        res.status = "undecided"
+        res.reason = "engine limitation (internal exception): " + "".join(traceback.format_exception(e))[-700:]
         res.seconds = time.time() - t0
+        res.assumptions = sorted(ctx.assumptions)
         return res
     axioms = ctx.all_axioms()
     res._ctx = ctx
